@@ -230,6 +230,7 @@ package auth
 // Deletes the document of a one-time session; a nil result for a one-time session means that this very call
 // removed the document (so, by the storage contract of Delete, no other presentation of the session can get nil).
 //@ func Authenticator.deleteOneTimeSession
+//@   also C11: consumed, refused
 //@   requires auth != nil && auth.MetaKeys != nil && session != nil
 //@   modifies docs
 //@   ensures[plain]    !isOneTime(session) ==> isNilErr(result) && docs == old(docs)
